@@ -48,6 +48,9 @@
 #ifndef VH_DEFMODE
 #define VH_DEFMODE 0
 #endif
+#ifndef VH_COMPAT
+#define VH_COMPAT 0		// 1: only the basic API forms (fallback build used when a rarely used form does not compile / link: the
+#endif					//    failure itself is reported, and the rest of the library can still be checked)
 
 #if defined(VH_DEV) && VH_DEV
 #include <ffsm2/machine_dev.hpp>
@@ -375,13 +378,13 @@ struct Logger : M::LoggerInterface {
 #define VH_TYPED_MAX 9
 #endif
 static unsigned g_apiTick = 0, g_aliasTick = 0;
-static inline bool typedNow() { return VH_N <= VH_TYPED_MAX && (((++g_apiTick * 2654435761u) >> 13) & 1u) != 0; }
+static inline bool typedNow() { return !VH_COMPAT && VH_N <= VH_TYPED_MAX && (((++g_apiTick * 2654435761u) >> 13) & 1u) != 0; }
 
 template <int I, int E> struct Disp {
 	template <typename F> static void go(int id, F& f) { if (id == I) f.template call<St<I>>(); else Disp<I + 1, E>::go(id, f); }
 };
 template <int E> struct Disp<E, E> { template <typename F> static void go(int, F&) {} };
-template <typename F> static void typed(int id, F& f) { Disp<0, (VH_N <= VH_TYPED_MAX ? VH_N : 0)>::go(id, f); }
+template <typename F> static void typed(int id, F& f) { Disp<0, (VH_N <= VH_TYPED_MAX && !VH_COMPAT ? VH_N : 0)>::go(id, f); }
 
 template <typename X> struct F_changeTo			 { X& x; template <typename T> void call() { x.template changeTo<T>(); } };
 template <typename X> struct F_immediateChangeTo { X& x; template <typename T> void call() { x.template immediateChangeTo<T>(); } };
@@ -441,6 +444,53 @@ static int emitPlan(const char* k, TPlan plan, bool comma = true) {
 }
 #endif
 
+#if VH_PLANS
+// the plan through its other forms: the mutable plan's iterator, first(), last() and emptiness test (mutable and const)
+// must all describe the sequence the const iterator yields.  1 = consistent.
+template <typename TPlan, typename TCPlan>
+static int planForms(TPlan plan, TCPlan cplan) {
+#if VH_COMPAT
+	(void) plan; (void) cplan; return 1;
+#else
+	int n = 0, m = 0;
+	int co[3] = { NONE, NONE, 0 }, cl[3] = { NONE, NONE, 0 };
+	bool same = true;
+	auto it = plan.begin();
+	for (auto ci = cplan.begin(); ci; ++ci, ++n) {
+		if (n > 300) return 0;
+		const int t[3] = { ci->origin, ci->destination,
+#if VH_PAY
+			tokOf(ci->payload())
+#else
+			0
+#endif
+		};
+		if (n == 0) { co[0] = t[0]; co[1] = t[1]; co[2] = t[2]; }
+		cl[0] = t[0]; cl[1] = t[1]; cl[2] = t[2];
+		if (!it) { same = false; continue; }
+		const auto& task = *it;
+		same = same && task.origin == t[0] && task.destination == t[1];
+#if VH_PAY
+		same = same && tokOf(task.payload()) == t[2];
+#endif
+		++it; ++m;
+	}
+	if (it) same = false;
+	const bool ne = n > 0;
+	if (static_cast<bool>(plan) != ne || static_cast<bool>(cplan) != ne) same = false;
+	if (ne) {
+		const auto& f = plan.first(); const auto& l = plan.last(); const auto& cf = cplan.first(); const auto& cla = cplan.last();
+		same = same && f.origin == co[0] && f.destination == co[1] && cf.origin == co[0] && cf.destination == co[1]
+					&& l.origin == cl[0] && l.destination == cl[1] && cla.origin == cl[0] && cla.destination == cl[1];
+#if VH_PAY
+		same = same && tokOf(f.payload()) == co[2] && tokOf(cf.payload()) == co[2] && tokOf(l.payload()) == cl[2] && tokOf(cla.payload()) == cl[2];
+#endif
+	}
+	return same ? 1 : 0;
+#endif
+}
+#endif
+
 template <typename TControl>
 static void emitCAct(TControl& control) {
 	g_rec.s("\"cact\":[");
@@ -469,16 +519,18 @@ template <int K> struct Views;
 template <> struct Views<0> {	// ConstControl (its plan() accessor does not compile in the library: CPlanT does not befriend ConstControlT)
 	template <typename C> static void cur(C&)  { g_rec.tr("cur", NONE, NONE, 0); }
 	template <typename C> static void pend(C&) { g_rec.tr("pend", NONE, NONE, 0); }
-	template <typename C> static int  plan(C&) { g_rec.s("\"plan\":[],"); return -1; }
+	template <typename C> static int  plan(C&) { g_rec.s("\"pfl\":1,\"plan\":[],"); return -1; }
 };
 template <> struct Views<1> {	// PlanControl
 	template <typename C> static void cur(C& c)  { emitTr("cur", c.currentTransition()); }
 	template <typename C> static void pend(C&)   { g_rec.tr("pend", NONE, NONE, 0); }
 	template <typename C> static int  plan(C& c) {
 #if VH_PLANS
-		const C& cc = c; return emitPlan("plan", cc.plan());
+		const C& cc = c;
+		g_rec.kv("pfl", planForms(c.plan(), cc.plan()));
+		return emitPlan("plan", cc.plan());
 #else
-		(void) c; g_rec.s("\"plan\":[],"); return 0;
+		(void) c; g_rec.s("\"pfl\":1,\"plan\":[],"); return 0;
 #endif
 	}
 };
@@ -595,10 +647,16 @@ static void deliver(int m, int s, int j, TControl& control, int selfOk, int evOk
 	g_rec.kv("sid", control.stateId());
 	emitCAct(control);
 	emitMAct(machine);
+#if VH_COMPAT
+	g_rec.kv("ctx", &control.context() == &machine.context() ? 1 : 0);
+#else
 	g_rec.kv("ctx", (&control.context() == &machine.context() && &control._() == &machine.context()) ? 1 : 0);
+#endif
 	g_rec.kv("self", selfOk); g_rec.kv("ev", evOk);
 	emitTr("req", control.request());
-#if VH_HISTORY
+#if VH_HISTORY && VH_COMPAT
+	emitTr("cprev", machine.previousTransition());
+#elif VH_HISTORY
 	emitTr("cprev", control.previousTransitions());		// the history as the callback sees it
 #else
 	g_rec.tr("cprev", NONE, NONE, 0);
@@ -821,6 +879,12 @@ static void construct(Inst& in, int fill, uint64_t fillSeed) {
 	#else
 		in.m = new (where) FSM::Instance{};
 	#endif
+#elif VH_COMPAT && VH_CTX == 3
+	#if VH_LOG
+		in.m = new (where) FSM::Instance{&in.ctx, lg};
+	#else
+		in.m = new (where) FSM::Instance{&in.ctx};
+	#endif
 #elif VH_CTX == 3
 	// pointer context: given to the constructor, or left null and supplied with setContext() afterwards
 	#if VH_LOG
@@ -829,7 +893,7 @@ static void construct(Inst& in, int fill, uint64_t fillSeed) {
 		in.m = alt ? new (where) FSM::Instance{} : new (where) FSM::Instance{&in.ctx};
 	#endif
 		if (alt) in.m->setContext(&in.ctx);
-#elif VH_CTX == 1
+#elif VH_CTX == 1 && !VH_COMPAT
 	// value context: copied from an lvalue (Context&) or moved from a temporary (PureContext&&)
 	#if VH_LOG
 		in.m = alt ? new (where) FSM::Instance{Ctx(in.ctx), lg} : new (where) FSM::Instance{in.ctx, lg};
